@@ -117,6 +117,7 @@ static uint64_t g_sig = 1469598103934665603ull;
 static uint64_t g_choice_no = 0;
 static uint64_t g_last_progress = 0, g_last_progress_step = 0;
 static uint64_t g_mmap_calls = 0;
+static uint64_t g_time_salt = 0;
 static bool g_trace = false, g_replay = false, g_faults_on = true;
 static int g_strategy = 0;
 static double g_stay_p = 0.9;
@@ -684,6 +685,7 @@ void child_run(const Job& job, const uint64_t* tape, const Dec* dec, Shared* out
     static const double stays[] = {0.5, 0.8, 0.95, 0.99};
     g_stay_p = stays[g_rng_sched.below(4)];
     g_clock_scale = 8 + g_rng_sched.below(24);
+    g_time_salt = g_rng_clock.below(1000000);
     uint32_t est = sd.est_steps ? sd.est_steps : 2000;
     g_pct_nchange = (int)g_rng_sched.below(5);
     for (int i = 0; i < g_pct_nchange; ++i) g_pct_change[i] = 1 + g_rng_sched.below(est);
@@ -877,10 +879,16 @@ long sim_sysconf(int name) {
     return ::sysconf(name);
 }
 time_t sim_time(time_t* t) {
-    time_t v = g_active ? (time_t)(1700000000 + g_now / 1000) : ::time(nullptr);
+    struct timespec ts;
+    time_t v;
+    if (g_active) v = (time_t)(1700000000 + sim::g_time_salt + sim::g_now / 1000000000ull);
+    else { clock_gettime(CLOCK_REALTIME, &ts); v = ts.tv_sec; }
     if (t) *t = v;
     return v;
 }
+// The executable's own definition of time() takes precedence over libc's: the skip-list level generator
+// seeds its engines with time(nullptr); under the simulator the value is a function of the seed.
+time_t time(time_t* t) __THROW { return sim_time(t); }
 uint64_t sim_machine_time_stamp(void) {
     if (!g_active) return __builtin_ia32_rdtsc();
     point(K_CLOCK, nullptr);
